@@ -109,7 +109,9 @@ impl View {
                 // A candidate that is also the plain transliteration may be on the list only as such (riti does not look up
                 // words starting with an upper-case letter). It counts as a dictionary match when it is ranked among the
                 // dictionary words, i.e. another dictionary-class candidate follows it, or when it is the auto-correct entry.
-                let ambiguous = w.iter().any(|y| matches!(y, Why::Translit)) && !w.iter().any(|y| matches!(y, Why::AutoCorrect));
+                // (only such words are ambiguous: a word that starts with anything else is always looked up)
+                let never_looked_up = self.word.chars().next().map_or(false, |c| c.is_ascii_uppercase());
+                let ambiguous = never_looked_up && w.iter().any(|y| matches!(y, Why::Translit)) && !w.iter().any(|y| matches!(y, Why::AutoCorrect));
                 if ambiguous && !self.classes[i + 1..].iter().any(dictish) {
                     continue;
                 }
